@@ -2,8 +2,11 @@ package main
 
 import (
 	"bytes"
+	"context"
+	"encoding/binary"
 	"encoding/json"
 	"fmt"
+	"github.com/cloudwego/gopkg/protocol/ttheader"
 	"math/rand"
 	"sort"
 	"strings"
@@ -256,7 +259,14 @@ func giantConvMonitor(c *Ctx) {
 		c.Assume("conversions of 4 GiB values skipped: the address space could not be reserved")
 		return
 	}
-	for _, n := range []int{1<<32 - 1, 1 << 32, 1<<32 + 5, 1<<31 + 3, 1 << 31} {
+	sizes := []int{1<<32 - 1, 1 << 32, 1<<32 + 5, 1<<31 + 3, 1 << 31}
+	for k := 25; k <= 32; k++ { // around and between the powers of two up to 4 GiB
+		sizes = append(sizes, 1<<k-1, 1<<k+1, 1<<k+1<<(k-1), 1<<k+1<<(k-2)+7)
+	}
+	for _, n := range sizes {
+		if n > len(buf) {
+			continue
+		}
 		b := buf[:n:n]
 		b[0], b[n-1], b[n/2] = 0xA1, 0xB2, 0xC3
 		bad := guarded(func() string {
@@ -694,7 +704,123 @@ func manyDistinctMonitor(c *Ctx) {
 	thrift.SetSpanCache(false)
 }
 
+// headerMapsMonitor: the keys and values of the maps ttheader.Decode returns are decoded values too: they stay what they
+// are when the input buffer is reused / the stream reader is released and its buffers are refilled.  Frames as a peer
+// may send them: unique keys, the same key in two str sections, the ACL section followed by a pair with its key.
+func headerMapsMonitor(c *Ctx) {
+	str := func(pairs ...string) []byte {
+		b := []byte{0x01, 0, byte(len(pairs) / 2)}
+		for _, p := range pairs {
+			b = append(b, byte(len(p)>>8), byte(len(p)))
+			b = append(b, p...)
+		}
+		return b
+	}
+	acl := func(tok string) []byte { return append([]byte{0x11, byte(len(tok) >> 8), byte(len(tok))}, tok...) }
+	intsec := func(k uint16, v string) []byte {
+		return append([]byte{0x10, 0, 1, byte(k >> 8), byte(k), byte(len(v) >> 8), byte(len(v))}, v...)
+	}
+	type fr struct {
+		name  string
+		parts [][]byte
+		str   map[string]string
+		ints  map[uint16]string
+	}
+	frames := []fr{
+		{"unique keys", [][]byte{str("tc", "cluster-a", "rip", "10.0.0.1"), intsec(7, "seven")}, map[string]string{"tc": "cluster-a", "rip": "10.0.0.1"}, map[uint16]string{7: "seven"}},
+		{"a key repeated in a second str section", [][]byte{str("tc", "first", "k", "v"), str("tc", "second-value")}, map[string]string{"tc": "second-value", "k": "v"}, nil},
+		{"a key repeated inside one section", [][]byte{str("tc", "first", "tc", "again")}, map[string]string{"tc": "again"}, nil},
+		{"ACL section, then a pair with its key", [][]byte{acl("tok-1"), str(ttheader.GDPRToken, "tok-2", "x", "y")}, map[string]string{ttheader.GDPRToken: "tok-2", "x": "y"}, nil},
+		{"a pair with the ACL key, then the ACL section", [][]byte{str(ttheader.GDPRToken, "tok-0"), acl("tok-9")}, map[string]string{ttheader.GDPRToken: "tok-9"}, nil},
+		{"int key repeated in a second int section", [][]byte{intsec(7, "a"), intsec(7, "bb"), intsec(8, "c")}, nil, map[uint16]string{7: "bb", 8: "c"}},
+	}
+	same := func(got map[string]string, want map[string]string) bool {
+		if len(got) != len(want) {
+			return false
+		}
+		for k, v := range want {
+			if g, ok := got[k]; !ok || g != v {
+				return false
+			}
+		}
+		for k := range got { // every stored key, as ranged over, is one of the expected ones
+			if _, ok := want[k]; !ok {
+				return false
+			}
+		}
+		return true
+	}
+	for _, f := range frames {
+		info := []byte{0, 0}
+		for _, p := range f.parts {
+			info = append(info, p...)
+		}
+		for len(info)%4 != 0 {
+			info = append(info, 0)
+		}
+		frame := make([]byte, 14, 14+len(info)+4)
+		frame[4] = 0x10
+		frame[11] = 9
+		frame[12], frame[13] = byte(len(info)/4>>8), byte(len(info)/4)
+		frame = append(append(frame, info...), 'p', 'a', 'y', '!')
+		binary.BigEndian.PutUint32(frame, uint32(len(frame)-4))
+		for _, how := range []string{"DecodeFromBytes", "Decode"} {
+			bad := guarded(func() string {
+				in := append([]byte(nil), frame...)
+				var d ttheader.DecodeParam
+				var err error
+				if how == "Decode" {
+					rd := bufiox.NewDefaultReader(&dataSource{data: in, chunks: []int{4096}})
+					d, err = ttheader.Decode(context.Background(), rd)
+					rd.Skip(d.PayloadLen)
+					rd.Release(nil)
+					var held [][]byte // whoever gets the reader's buffers next fills them
+					for _, sz := range []int{4096, 4096, 8192, 16384, 4096} {
+						b := mcache.Malloc(sz)
+						for k := range b {
+							b[k] = '#'
+						}
+						held = append(held, b)
+					}
+					for _, b := range held {
+						mcache.Free(b)
+					}
+				} else {
+					d, err = ttheader.DecodeFromBytes(context.Background(), in)
+				}
+				if err != nil {
+					return fmt.Sprintf("%s refused the frame: %v", how, err)
+				}
+				for k := range in {
+					in[k] = '#'
+				}
+				want := f.str
+				if want == nil {
+					want = map[string]string{}
+				}
+				if !same(d.StrInfo, want) {
+					return fmt.Sprintf("%s: after the input was reused StrInfo reads %q, want %q", how, d.StrInfo, want)
+				}
+				if len(d.IntInfo) != len(f.ints) {
+					return fmt.Sprintf("%s: IntInfo %v, want %v", how, d.IntInfo, f.ints)
+				}
+				for k, v := range f.ints {
+					if d.IntInfo[k] != v {
+						return fmt.Sprintf("%s: after the input was reused IntInfo[%d] reads %q, want %q", how, k, d.IntInfo[k], v)
+					}
+				}
+				return ""
+			})
+			c.AddEvals(1)
+			if bad != "" {
+				c.GoViolation("hdrmaps-C16", "indep/header-maps/"+how, map[string]string{"frame": f.name, "api": how}, f.name+": "+bad)
+			}
+		}
+	}
+}
+
 func init() {
+	goReplays["hdrmaps-C16"] = func(c *Ctx, raw json.RawMessage) { headerMapsMonitor(c) }
 	goReplays["distinct-C16"] = func(c *Ctx, raw json.RawMessage) { manyDistinctMonitor(c) }
 }
 
@@ -745,6 +871,7 @@ func checkC16(c *Ctx) {
 	}
 	c.TraceCheck(famIndep, cases)
 	manyDistinctMonitor(c)
+	headerMapsMonitor(c)
 	c.Assume("result regions are projected as (cluster, offset, len, cap) from real addresses; strings count with cap = len")
 }
 
